@@ -241,3 +241,34 @@ def lookup_loop(loop):
     else:
         return None
     return {"collection": coll, "elem": elem, "test": pos, "found": found, "orelse": loop.orelse, "loop": loop}
+
+
+def first_claim_loop(fn):
+    """`for T in UNIT_TYPES: if c := T(a, b): return <use of c>` followed (for-else or after the loop) by a raise.
+    Decided on resolved paths: -> dict(iter=<src>, claim=<resolved claim call>, returns=[resolved returns when claimed],
+    falls_through=bool (an unclaimed iteration continues), exhausted_raises=bool) or None."""
+    import ast as _ast
+    from ..flowexpr import consistent, explore
+    from ..model import norm as _norm
+    ex = explore(fn)
+    loops = [v for v in ex.iterations.values() if isinstance(v[0], _ast.For)]
+    if len(loops) != 1:
+        return None
+    lp, start, its = loops[0]
+    if not isinstance(lp.target, _ast.Name):
+        return None
+    U = lp.target.id + "@loop1"
+    claims = sorted({_norm(e.resolved) for q in its for e in q.events[start:] if e.kind == "test" and isinstance(e.resolved, _ast.Call)
+                     and _norm(e.resolved.func) == U})
+    if len(claims) != 1:
+        return None
+    claim = claims[0]
+    yes, u1 = consistent(its, lambda e: True if _norm(e) == claim else None, start)
+    no, u2 = consistent(its, lambda e: False if _norm(e) == claim else None, start)
+    if u1 or u2 or not yes or not no:
+        return None
+    return {"iter": _norm(lp.iter), "claim": claim.replace(U, "T"),
+            "returns": sorted({_norm(e.resolved).replace(U, "T") for q in yes for e in q.events[start:] if e.kind == "return"}),
+            "claimed_all_return": all(q.status == "return" for q in yes),
+            "falls_through": all(q.status in (None, "continue") for q in no),
+            "exhausted_raises": all(q.status == "raise" for q in ex.paths if q.status != "return")}
